@@ -205,15 +205,17 @@ CMode(m)     == UNCHANGED cfg /\ Idle /\ S' = [Fresh(S) EXCEPT !.cmode = m]
 HMode(m)     == UNCHANGED cfg /\ Idle /\ S' = [Fresh(S) EXCEPT !.hmode = m]
 
 (* a user callback's re-entrant call: accepted like any other call ("no event is rejected") *)
+ChN(s, n) == Ch(s, n.call = "start", FALSE, n.call = "start", n.call = "stop", n.call = "stop")
+ApplyNested(s, n, ch) ==
+    LET s0 == [s EXCEPT !.todo = @ \ {n}]
+        s1 == CASE n.call = "start" -> DoStart(s0, ch)
+                [] n.call = "stop"  -> DoStop(s0, "none", ch)
+                [] OTHER            -> DoWhen(s0, 0, "none")
+        nid == CASE n.call = "stop" -> s1.nS [] n.call = "when" -> s1.nW [] OTHER -> 0
+    IN [s1 EXCEPT !.nres = Append(@, [by |-> n.by, id |-> n.id, call |-> n.call, res |-> "ok", newid |-> nid])]
 NestedCall(n) ==
     /\ n \in S.todo
-    /\ \E ch \in Ch(S, n.call = "start", FALSE, n.call = "start", n.call = "stop", n.call = "stop") :
-         LET s0 == [S EXCEPT !.todo = @ \ {n}]
-             s1 == CASE n.call = "start" -> DoStart(s0, ch)
-                     [] n.call = "stop"  -> DoStop(s0, "none", ch)
-                     [] OTHER            -> DoWhen(s0, 0, "none")
-             nid == CASE n.call = "stop" -> s1.nS [] n.call = "when" -> s1.nW [] OTHER -> 0
-         IN S' = [s1 EXCEPT !.nres = Append(@, [by |-> n.by, id |-> n.id, call |-> n.call, res |-> "ok", newid |-> nid])]
+    /\ \E ch \in ChN(S, n) : S' = ApplyNested(S, n, ch)
 Nested == UNCHANGED cfg /\ \E n \in S.todo : NestedCall(n)
 
 Thens == {"none", "start", "stop", "when"}
@@ -232,19 +234,25 @@ Next == \/ Start
 
 -----------------------------------------------------------------------------
 (* The property as state invariants (they hold between any two calls, re-entrant or not). *)
-OneConn  == ~(S.att # 0 /\ S.conn # 0)                       \* single-valued att/conn + this = at most one of either
-RetryInv == /\ (S.mode = "run" /\ S.att = 0 /\ S.conn = 0 => S.retryAt # None /\ S.retryAt > S.now)
-            /\ (S.mode = "run" /\ S.prep = "rej" => S.retryAt # None)
-            /\ (S.mode # "run" => S.retryAt = None)
-            /\ (S.att # 0 \/ S.prep \in {"pending", "done"} => S.retryAt = None)
-WaitInv  == /\ (S.mode = "run" /\ S.prep = "done" => DOMAIN S.wt = {})      \* resolved by the connection
-            /\ (S.mode = "stopped" => DOMAIN S.wt = {})                       \* resolved by the stop
-            /\ \A w \in DOMAIN S.wt : S.wt[w].rem >= 0                        \* limit not overrun (rem=1 fails at the next failure)
-StopInv  == /\ (DOMAIN S.stops # {} <=> S.mode \in {"stopping", "restarting"})
-            /\ (S.mode \in {"stopping", "restarting"} => S.conn # 0)          \* a pending stop waits for an open connection only
-            /\ (S.mode \in {"idle", "stopped"} => S.att = 0 /\ S.conn = 0)
-            /\ (S.mode # "run" => S.att = 0)
-FiredOnce == \A o1, o2 \in S.obs : (o1.k = o2.k /\ o1.i = o2.i /\ o1.k \in {"w", "s"}) => o1 = o2
+OneConnOf(s) == ~(s.att # 0 /\ s.conn # 0)                       \* single-valued att/conn + this = at most one of either
+RetryInvOf(s) == /\ (s.mode = "run" /\ s.att = 0 /\ s.conn = 0 => s.retryAt # None /\ s.retryAt > s.now)
+            /\ (s.mode = "run" /\ s.prep = "rej" => s.retryAt # None)
+            /\ (s.mode # "run" => s.retryAt = None)
+            /\ (s.att # 0 \/ s.prep \in {"pending", "done"} => s.retryAt = None)
+WaitInvOf(s) == /\ (s.mode = "run" /\ s.prep = "done" => DOMAIN s.wt = {})      \* resolved by the connection
+            /\ (s.mode = "stopped" => DOMAIN s.wt = {})                       \* resolved by the stop
+            /\ \A w \in DOMAIN s.wt : s.wt[w].rem >= 0                        \* limit not overrun (rem=1 fails at the next failure)
+StopInvOf(s) == /\ (DOMAIN s.stops # {} <=> s.mode \in {"stopping", "restarting"})
+            /\ (s.mode \in {"stopping", "restarting"} => s.conn # 0)          \* a pending stop waits for an open connection only
+            /\ (s.mode \in {"idle", "stopped"} => s.att = 0 /\ s.conn = 0)
+            /\ (s.mode # "run" => s.att = 0)
+FiredOnceOf(s) == \A o1, o2 \in s.obs : (o1.k = o2.k /\ o1.i = o2.i /\ o1.k \in {"w", "s"}) => o1 = o2
 
+InvOf(s) == OneConnOf(s) /\ RetryInvOf(s) /\ WaitInvOf(s) /\ StopInvOf(s) /\ FiredOnceOf(s)
+OneConn == OneConnOf(S)
+RetryInv == RetryInvOf(S)
+WaitInv == WaitInvOf(S)
+StopInv == StopInvOf(S)
+FiredOnce == FiredOnceOf(S)
 Inv == OneConn /\ RetryInv /\ WaitInv /\ StopInv /\ FiredOnce
 =============================================================================
